@@ -158,11 +158,11 @@ static void verif_cb(int ev, long pnum, long a, long b, long c, const void *p)
         } else if (a == LUSUP && q && init_map_n >= 0) {   /* {prev_next, fsupc}: c entries inside the slot of fsupc */
             long fs = q[1], end = -1, k;
             if (fs >= 0 && fs <= cb_n) {
-                if (!init_dynamic || dyn_end[fs] < 0) {
+                if (!init_dynamic) {
                     /* static image: the slot ends where the next slot leader's slot began */
                     for (k = fs + 1; k <= cb_n; ++k) if (init_map[k] >= 0 && (k == cb_n || init_map[k] >= init_map[fs])) { end = init_map[k]; break; }
-                    if (init_dynamic && dyn_end[fs] < 0 && end < 0) end = init_nzlumax;
-                } else end = dyn_end[fs];
+                } else if (dyn_end[fs] >= 0) end = dyn_end[fs];
+                /* dynamic scheme, relaxed supernode preset by ?PresetMap: only the global bound is checked */
             }
             pthread_mutex_lock(&evmu);
             lusup_allocs++;
